@@ -3,7 +3,7 @@ SPECIFICATION Spec
 CONSTANTS
   NB = 2
   MaxRogue = 2
-  RogueKinds = {"wrongId", "otherId", "staleId", "close", "stall"}
+  RogueKinds = {"wrongId", "otherId", "staleId", "badGreeting", "close", "stall"}
   MaxMsgs = 0
   Mode = "standard"
   Bug = {}
